@@ -367,7 +367,14 @@ fn run_scenario(c: &Case) -> Vec<String> {
                 }
                 tokio::time::sleep(Duration::from_millis(50)).await;
             });
-            let spec = CoreSpec { socks5: Some((proxy_addr, (c.nonce >> 4) % 2 == 1)), ..spec.clone() };
+            // one case in four: no authenticator at all, the client's token goes to the forwarder unchecked
+            let no_authenticator = (c.nonce >> 12) % 4 == 0;
+            let spec = CoreSpec {
+                socks5: Some((proxy_addr, (c.nonce >> 4) % 2 == 1)),
+                auth: if no_authenticator { AuthKind::None } else { spec.auth.clone() },
+                clients: if no_authenticator { vec![] } else { spec.clients.clone() },
+                ..spec.clone()
+            };
             let Ok(world) = spec.build() else { return };
             let mut req = build_request(&c, &k);
             req.method = "CONNECT".into();
@@ -376,6 +383,10 @@ fn run_scenario(c: &Case) -> Vec<String> {
             let (sni, creds) = if c.sni_creds.is_some() { (format!("{}.main.x", k.sni_label), Some(k.sni_label.clone())) } else { ("main.x".to_string(), None) };
             if creds.is_none() {
                 req.auth = vec![AuthHeader::Raw(format!("Basic {}", b64(&format!("user:{}", k.configured_pass))).into_bytes())];
+            }
+            if no_authenticator && (c.nonce >> 14) % 2 == 0 {
+                // a token that decodes to something without a colon: no user / password halves
+                req.auth = vec![AuthHeader::Raw(format!("Basic {}", b64(&k.pass)).into_bytes())];
             }
             let wait = Duration::from_secs(3);
             if c.h2 {
